@@ -229,7 +229,7 @@ Fixpoint list_loop (dec1 : bytes -> res (bval * bytes)) (steps : nat) (cur : byt
       end
   end.
 
-(* dict loop; `return decoded_dict, start_index` : the closing 'e' is NOT consumed *)
+(* dict loop; `return decoded_dict, start_index + 1` (after fix 67aa5e2 the closing 'e' is consumed, as for lists) *)
 Fixpoint dict_loop (dec1 : bytes -> res (bval * bytes)) (steps : nat) (cur : bytes)
   (acc : list (bval * bval)) : res (bval * bytes) :=
   match steps with
@@ -237,8 +237,8 @@ Fixpoint dict_loop (dec1 : bytes -> res (bval * bytes)) (steps : nat) (cur : byt
   | S st =>
       match cur with
       | [] => Err EIndex
-      | c :: _ =>
-          if isb 101 c then Ok (BDict acc, cur)
+      | c :: cur' =>
+          if isb 101 c then Ok (BDict acc, cur')
           else match dec1 cur with
                | Err e => Err e
                | Ok (k, cur2) =>
@@ -298,6 +298,72 @@ Definition bdecode (fuel : nat) (data : bytes) : res (list (bval * bval)) :=
   match data with
   | [] => Err EDecode
   | _ => match bdec (S (length data)) fuel data with
+         | Err e => Err e
+         | Ok (BDict d, _) => Ok d
+         | Ok (_, _) => Err EDecode
+         end
+  end.
+
+(* The decoder as it was BEFORE fix 67aa5e2: the dict branch returned the index OF the closing 'e'.  Kept only for
+   the machine-checked refutation of the old behaviour (see the C17_old_decoder_refuted examples in Props). *)
+Fixpoint dict_loop_old (dec1 : bytes -> res (bval * bytes)) (steps : nat) (cur : bytes)
+  (acc : list (bval * bval)) : res (bval * bytes) :=
+  match steps with
+  | O => Err EInternal
+  | S st =>
+      match cur with
+      | [] => Err EIndex
+      | c :: _ =>
+          if isb 101 c then Ok (BDict acc, cur)
+          else match dec1 cur with
+               | Err e => Err e
+               | Ok (k, cur2) =>
+                   match dec1 cur2 with
+                   | Err e => Err e
+                   | Ok (v, cur3) =>
+                       if hashable k then dict_loop_old dec1 st cur3 (pydict_set acc k v)
+                       else Err EDecode
+                   end
+               end
+      end
+  end.
+
+Fixpoint bdec_old (steps depth : nat) (data : bytes) {struct depth} : res (bval * bytes) :=
+  match depth with
+  | O => Err ERecursion
+  | S d =>
+      match data with
+      | [] => Err EIndex
+      | b :: rest =>
+          if isb 105 b then
+            match find_split 101 rest with
+            | Some (num, after) =>
+                match py_int_of_bytes num with
+                | Some z => Ok (BInt z, after)
+                | None => Err EDecode
+                end
+            | None => Err EDecode
+            end
+          else if isb 108 b then list_loop (bdec_old steps d) steps rest []
+          else if isb 100 b then dict_loop_old (bdec_old steps d) steps rest []
+          else
+            match find_split 58 data with
+            | Some (num, after) =>
+                match py_int_of_bytes num with
+                | Some z =>
+                    if (z <? 0)%Z then Err EDecode
+                    else let (s, rest') := take_clamped (Z.to_N z) after in Ok (BStr s, rest')
+                | None => Err EDecode
+                end
+            | None => Err EDecode
+            end
+      end
+  end.
+
+Definition bdecode_old (fuel : nat) (data : bytes) : res (list (bval * bval)) :=
+  match data with
+  | [] => Err EDecode
+  | _ => match bdec_old (S (length data)) fuel data with
          | Err e => Err e
          | Ok (BDict d, _) => Ok d
          | Ok (_, _) => Err EDecode
@@ -694,6 +760,28 @@ Definition request_valid (own : bytes) (m : rawmsg) : bool :=
   | _ => false          (* method not bytes; args a dict (message.args[:-1] raises); not a request *)
   end.
 
+(* the text of the error datagram that answers an unknown method.  _handle_rpc raises
+   AttributeError('Invalid method: %s' % message.method.decode()) and handle_request_datagram sends
+   str(err)[:256].encode(): the first 256 CHARACTERS of the text, as UTF-8 *)
+Definition utf8_seq_len (a : byte) : nat :=
+  let n := N_of_byte a in
+  if n <=? 127 then 1%nat else if n <=? 223 then 2%nat else if n <=? 239 then 3%nat else 4%nat.
+
+(* s[:n] of a str, on its UTF-8 bytes *)
+Fixpoint utf8_take (n : nat) (s : bytes) : bytes :=
+  match n with
+  | O => []
+  | S n' => match s with
+            | [] => []
+            | a :: _ => firstn (utf8_seq_len a) s ++ utf8_take n' (skipn (utf8_seq_len a) s)
+            end
+  end.
+
+Definition ERROR_TEXT_LIMIT : nat := 256.
+Definition s_invalid_method : bytes := Eval vm_compute in lit "Invalid method: ".
+Definition invalid_method_text (method : bytes) : bytes :=
+  utf8_take ERROR_TEXT_LIMIT (s_invalid_method ++ method).
+
 Section RequestHandler.
   Variables Routing Store Other Addr : Type.
   Notation state := (node_state Routing Store Other Addr).
@@ -727,6 +815,53 @@ Section RequestHandler.
   Definition node_receive (own : bytes) (fuel : nat) (st : state) (sender : Addr) (data : bytes) : state :=
     datagram_received Routing Store Other Addr (process_message own) fuel st sender data.
 End RequestHandler.
+
+(* ------------------------------------------------------------------------------------------ *)
+(* lbry.utils.LRUCache, the container behind PeerManager._rpc_failures (capacity CACHE_SIZE)      *)
+(* ------------------------------------------------------------------------------------------ *)
+
+Section LRU.
+  Variables K V : Type.
+  Variable keqb : K -> K -> bool.
+
+  (* an OrderedDict: oldest entry first, keys pairwise different *)
+  Definition lru : Type := list (K * V).
+
+  Definition lru_has (c : lru) (k : K) : bool := existsb (fun p => keqb (fst p) k) c.
+  Definition lru_remove (c : lru) (k : K) : lru := filter (fun p => negb (keqb (fst p) k)) c.   (* cache.pop(key, None) *)
+  Definition lru_peek (c : lru) (k : K) : option V :=
+    match find (fun p => keqb (fst p) k) c with Some p => Some (snd p) | None => None end.
+
+  (* set: pop the key; if it was absent and the cache is full evict the OLDEST entry; insert as newest *)
+  Definition lru_set (cap : nat) (c : lru) (k : K) (v : V) : lru :=
+    (if lru_has c k then lru_remove c k
+     else if (cap <=? length c)%nat then tl c else c) ++ [(k, v)].
+
+  (* get: a hit moves the entry to the newest position *)
+  Definition lru_get (c : lru) (k : K) : option V * lru :=
+    match lru_peek c k with
+    | Some v => (Some v, lru_remove c k ++ [(k, v)])
+    | None => (None, c)
+    end.
+End LRU.
+
+(* PeerManager.report_failure:  _, previous = failures.pop(addr, (None, None)); failures[addr] = (previous, now) *)
+Definition report_failure {A : Type} (aeqb : A -> A -> bool) (cap : nat)
+  (c : lru A (option N * option N)) (addr : A) (now : N) : lru A (option N * option N) :=
+  let previous := match lru_peek A _ aeqb c addr with Some (_, last) => last | None => None end in
+  lru_set A _ aeqb cap (lru_remove A _ aeqb c addr) addr (previous, Some now).
+
+(* a run of cache operations on numeric keys / values, for the correspondence with the real class *)
+Inductive lru_op : Type := LSet (k v : N) | LGet (k : N) | LPop (k : N).
+Definition lru_step (cap : nat) (c : lru N N) (o : lru_op) : lru N N :=
+  match o with
+  | LSet k v => lru_set N N N.eqb cap c k v
+  | LGet k => snd (lru_get N N N.eqb c k)
+  | LPop k => lru_remove N N N.eqb c k
+  end.
+Definition lru_run (cap : nat) (ops : list lru_op) : lru N N := fold_left (lru_step cap) ops [].
+Definition failures_run (cap : nat) (senders : list N) : lru N (option N * option N) :=
+  fst (fold_left (fun st a => (report_failure N.eqb cap (fst st) a (snd st), N.succ (snd st))) senders ([], 1)).
 
 (* the handler instantiated for the correspondence run: [other] records whether a decoded message was
    handed on to the request/response/error handlers *)
